@@ -46,6 +46,7 @@ type Run struct {
 	snaps   []value
 	hooks   map[string]nativeFn // dynamic binds (verifBind)
 	loops   map[loopKey]int
+	timers  map[*value]*vtimer
 
 	Violations []Violation
 	Reached    map[string]bool
